@@ -373,6 +373,7 @@ def _helper_views(prop, tier, fn, level, ctx0):
     rest = [k for k in sorted(cands) if k not in rel]
     order = rel + rest
     cur, cur_score = set(), _score(ctx0)
+    single = {}
     best_ctx = None
     tried = set()
     improved = True
@@ -388,6 +389,8 @@ def _helper_views(prop, tier, fn, level, ctx0):
             tried.add(trial)
             c, ok = _attempt(prop, tier, fn, level, trial)
             sc = _score(c)
+            if not cur:
+                single[h] = (sc, bool(c.inconclusive))
             if os.environ.get("JL_INLINE_DEBUG"):
                 print("  [inline] try +%s -> score %d %s" % (short(h), sc, (c.inconclusive or [""])[0][:150]))
             if ok and sc == 0:
@@ -401,6 +404,25 @@ def _helper_views(prop, tier, fn, level, ctx0):
             cur.add(best[1])
             cur_score = best[0]
             improved = True
+    # two helpers that only help together (`borrow_all(&evaluate_arguments(..)?)`): the greedy search needs every single
+    # step to improve the score; as a last trial all helpers named in the report / called from the reported functions
+    if len(rel) >= 2 and time.time() - t0 < budget:
+        harmless = [h for h in rel if h in single and not single[h][1] and single[h][0] <= _score(ctx0)]
+        named = [h for h in harmless if short(h) in text or h in text]
+        for trial in (frozenset(named[:6]) | frozenset(cur), frozenset(harmless[:6]) | frozenset(cur)):
+            if len(trial) < 2:
+                continue
+            if trial in tried:
+                continue
+            tried.add(trial)
+            c, ok = _attempt(prop, tier, fn, level, trial)
+            sc = _score(c)
+            if os.environ.get("JL_INLINE_DEBUG"):
+                print("  [inline] try together %s -> score %d %s" % (sorted(short(h) for h in trial), sc, (c.inconclusive or [""])[0][:150]))
+            if ok and sc == 0:
+                return c
+            if sc < cur_score and not c.inconclusive:
+                best_ctx, cur_score = c, sc
     if best_ctx is not None and not best_ctx.inconclusive:
         best_ctx.partial_view = True
         return best_ctx
